@@ -7,7 +7,8 @@ Line protocol shared by the perf.data-driven properties (C01, C17, C02, C14).
 ops (all numbers decimal, names/paths hex-encoded ASCII):
   cfg <reuse 0|1> <fold 0|1> <ref> [elf:<pathhex>:<baseSvma>:<svma>,<fileOff>,<size>;…]* [percpu:<ncpu>]
       (an `elf:` word declares that the file at that path exists on disk, with the image base and the LOAD
-       segments the converter will read from it: MMAP2 records naming it are attributed segment-based;
+       segments the converter will read from it (`Config.files`): MMAP2 records naming it are attributed
+       segment-based, or ignored when no segment relates to the mapped file range;
        `percpu:<n>` = `--per-cpu-threads`, the sample at raw time t is on CPU t mod n)
   perfmap <pid> <addr> <len> <namehex>     one line `<addr hex> <len hex> <name>` of /tmp/perf-<pid>.map
   perfmapraw <pid> <linehex>               one line of /tmp/perf-<pid>.map, verbatim (malformed lines, `0x`, …)
@@ -18,6 +19,8 @@ ops (all numbers decimal, names/paths hex-encoded ASCII):
   comm <pid> <tid> <exec 0|1> <t> <namehex>
   mmap2 <pid> <tid> <addr> <len> <pgoff> <exec 0|1> <t> <pathhex>
   switchin <pid> <tid> <t>                 PERF_RECORD_SWITCH / SWITCH_CPU_WIDE, switch-in
+  layout <i,j,…;k,…;…>                     file layout (rounds of record indices) for the perf.data writer; ignored here:
+                                           the record lines are in *delivery* order, which need not be time order
   switchout <pid> <tid> <t> [preempt]      … with PERF_RECORD_MISC_SWITCH_OUT [| SWITCH_OUT_PREEMPT]
   sched <pid> <tid> <t> <k|u> <ip> <chain> SAMPLE of the second event `sched:sched_switch`
   cfg word `cs:<letters|->:<n>`: c = attr.context_switch on the main event, s = a second event named
@@ -64,6 +67,10 @@ def isPmOp (l : String) : Bool :=
   match words l with
   | "perfmap" :: _ => true
   | "perfmapraw" :: _ => true
+  -- `layout <rounds>`: how the harness lays the records out in the perf.data file (rounds of record indices).
+  -- The op lines list the records in the order the reader's round sorter delivers them, which is all the
+  -- converter sees; the line is for the perf.data writer only.
+  | "layout" :: _ => true
   | _ => false
 
 /-- group the lines by pid, keeping the order of the lines and of the first mention of each pid -/
@@ -108,20 +115,6 @@ def parseElf (w : String) : Option (String × SvmaBias.FileInfo) :=
     some (strOfHex path, ⟨nat! base, cs⟩)
   | _ => none
 
-/-- segment-based attribution of a file present on disk (`add_module_to_process` case 2): the record's
-page offset is replaced by the relative start computed by `SvmaBias.relStart`; `none` = the code would
-not add the mapping / would panic (not generated) -/
-def applyFiles (files : List (String × SvmaBias.FileInfo)) (r : Rec) : Option Rec :=
-  match r with
-  | .mmap2 pid tid addr len pgoff true path t =>
-    match files.find? (fun f => f.1 == path) with
-    | none => some r
-    | some f =>
-      match SvmaBias.relStart f.2 pgoff addr len with
-      | .ok rel => some (.mmap2 pid tid addr len rel true path t)
-      | _ => none
-  | _ => some r
-
 /-- the `cs:` word of the cfg line, if any -/
 def csWord (ls : List String) : Option (String × Nat) :=
   match ls with
@@ -146,11 +139,8 @@ def parse (ls : List String) : Option (Config × List Rec) :=
         | none => (none, 1000000, 1)
       let pm := groupPm (rest.filterMap parsePmOp)
       match (rest.filter (fun l => !isPmOp l)).mapM parseRec with
-      | some rs =>
-        match rs.mapM (applyFiles files) with
-        | some rs' => some ({ reuse := reuse == "1", fold := fold == "1", ref := nat! ref, perfMaps := pm, ncpu,
-                              offCpu := cs.1, interval := cs.2.1, offWeight := cs.2.2 }, rs')
-        | none => none
+      | some rs => some ({ reuse := reuse == "1", fold := fold == "1", ref := nat! ref, perfMaps := pm, ncpu,
+                           offCpu := cs.1, interval := cs.2.1, offWeight := cs.2.2, files }, rs)
       | none => none
     | _ => none
   | [] => none
@@ -223,10 +213,11 @@ def model (proj : Proj) (ls : List String) : List String :=
   | none => ["bad-op"]
   | some (cfg, rs) =>
     if cfgPanics ls then ["panic"] else
-    if rs.any (fun r => !recSafe r) then ["panic"] else
+    if rs.any (fun r => !recSafe cfg r) then ["panic"] else
     let s := run cfg rs
     if s.bad then ["panic"] else
     if !perfMapsSafe s then ["panic"] else
+    if !flushAllSafe s then ["panic"] else
     -- recordings with context-switch settings are compared in the `cs` projection (time, on/off, weight, cpu
     -- delta), whatever property drives them
     let proj := if (csWord ls).isSome && (proj == .c01) then Proj.cs else proj
